@@ -204,7 +204,8 @@ def malformed_streams():
 def random_table(rng, wf=True):
     """a random transition table; with wf=True set-backs never overlap"""
     ntypes = rng.randint(1, 6)
-    offs = [rng.choice([0, 1800, 3600, -3600, 7200, 5400, -16200, 1172, 36000, 41400, -39600, 50400, 900])
+    # offsets (and hence derived dstoffsets) stay less than 24 h apart: CPython rejects |dst()| >= 24 h
+    offs = [rng.choice([0, 1800, 3600, -3600, 7200, 5400, -16200, 1172, 36000, 41400, -36000, 900])
             + rng.choice([0, 0, 0, 3600, -1800]) for _ in range(ntypes)]
     types = [(offs[i], rng.choice([0, 0, 1]), "T%d" % i if rng.random() < 0.9 else "") for i in range(ntypes)]
     n = rng.randint(1, 14)
